@@ -44,7 +44,7 @@ func c14SoleCall(d *fw.JQDef) *gojq.Func {
 func c14JQPos(d *fw.JQDef) string { return d.File.Rel + ":" + d.Key() }
 
 func c14Pair(cx *c14Ctx) {
-	ru := cx.r.Rule("C14.pair", "jq wrappers: to_X/from_X pass the same option literal to the matching _to_/_from_ primitive, the literal names X and is a label of the Go selector; hash wrappers to_L pass {name:L}; base64 defaults and arity-0 forms agree on both sides; compat aliases dispatch (to_X; from_X); F/0 delegates to the same primitive as F/1; to_pem/from_pem pass the same base64 variant", 42)
+	ru := cx.r.Rule("C14.pair", "jq wrappers: to_X/from_X pass the same option literal to the matching _to_/_from_ primitive, the literal names X and is a label of the Go selector; hash wrappers to_L pass {name:L}; base64 defaults and arity-0 forms agree on both sides; compat aliases dispatch (to_X; from_X); F/0 delegates to the same primitive as F/1; to_pem/from_pem pass the same base64 variant; defaults are added to the left of the caller's options", 42)
 	jq := cx.jq
 
 	// (1) string encodings and hashes: def to_X: _to_strencoding({encoding: L});
@@ -145,8 +145,20 @@ func c14Pair(cx *c14Ctx) {
 		if fc.Name != "_from_base64" {
 			problems = append(problems, "from_base64 calls "+fc.Name)
 		}
-		if a, b := fw.JQStr(tc.Args[0]), fw.JQStr(fc.Args[0]); a != b {
+		if a, b := c14JQStrNorm(td, tc.Args[0]), c14JQStrNorm(fd, fc.Args[0]); a != b {
 			problems = append(problems, "options differ: to passes "+a+", from passes "+b)
+		}
+		// {defaults} + $opts: the caller's options are the right operand (the right side of + wins)
+		for _, side := range []struct {
+			d   *fw.JQDef
+			arg *gojq.Query
+		}{{td, tc.Args[0]}, {fd, fc.Args[0]}} {
+			if side.arg.Op != gojq.OpAdd || len(side.d.Def.Args) != 1 {
+				continue
+			}
+			if _, isObj := c14ObjLit(side.arg.Right); isObj && c14Mentions(side.arg.Left, side.d.Def.Args[0]) {
+				problems = append(problems, side.d.Def.Name+" adds the default object to the right of "+side.d.Def.Args[0]+": the default overrides the caller's option")
+			}
 		}
 		ru.Check(len(problems) == 0, key, c14JQPos(td), "same options "+fw.JQStr(tc.Args[0]), strings.Join(problems, "; "))
 	}
@@ -265,7 +277,7 @@ func c14Pair(cx *c14Ctx) {
 // C14.radix
 
 func c14Radix(cx *c14Ctx) {
-	ru := cx.r.Rule("C14.radix", "the default digit tables of to_radix/1 (string) and from_radix/1 (object) are inverse bijections covering bases up to 64: from[to[i]] == i for every position, equal sizes; to_radix/2 accepts exactly the bases up to the table length; from_radix/2 rejects digits not below the base", 62)
+	ru := cx.r.Rule("C14.radix", "the default digit tables of to_radix/1 (string) and from_radix/1 (object) are inverse bijections covering bases up to 64: from[to[i]] == i for every position, equal sizes; to_radix/2 accepts exactly the bases up to the table length; from_radix/2 rejects exactly the digits >= base and characters missing from the table, evaluates positionally ([power*base, answer+power*digit] from [1,0] over reversed digits, or Horner most-significant-first); to_radix/2 takes . % base of successive _intdiv(.; base), reverses to most-significant-first and removes the terminal 0 once", 70)
 	jq := cx.jq
 	toD, fromD := jq.Def("format/math/radix.jq", "to_radix", 1), jq.Def("format/math/radix.jq", "from_radix", 1)
 	if toD == nil || fromD == nil {
@@ -308,6 +320,7 @@ func c14Radix(cx *c14Ctx) {
 		from[k] = n
 	}
 	c14RadixGuards(cx, ru)
+	c14RadixArith(cx, ru)
 	digits := []rune(table)
 	ru.Check(len(digits) == len(from), "sizes", c14JQPos(toD), fmt.Sprintf("%d digits", len(digits)), fmt.Sprintf("to_radix table has %d digits, from_radix table %d", len(digits), len(from)))
 	ru.Check(len(digits) >= 64, "covers-64", c14JQPos(toD), "bases up to 64", fmt.Sprintf("digit table has %d digits, bases up to 64 are documented", len(digits)))
@@ -413,18 +426,7 @@ func c14RadixGuards(cx *c14Ctx, ru *fw.Rule) {
 	if nGuard == 0 {
 		ru.Fail("to-base-guard", c14JQPos(to2), "to_radix/2 does not compare "+base+" with the table length: a base beyond the table yields null digits instead of an error")
 	}
-	// from_radix: some condition on $base leading to error
-	fbase := from2.Def.Args[0]
-	guarded := false
-	fw.WalkJQ(from2.Def.Body, func(n any) bool {
-		if ifn, ok := n.(*gojq.If); ok && ifn.Cond != nil && c14Mentions(ifn.Cond, fbase) {
-			if c14HasCall(ifn.Then, "error") || (ifn.Else != nil && c14HasCall(ifn.Else, "error")) {
-				guarded = true
-			}
-		}
-		return true
-	}, false)
-	ru.Check(guarded, "from-digit-guard", c14JQPos(from2), "digits are checked against the base", "from_radix/2 never tests a digit value against "+fbase+": a digit >= base is accepted and yields a number (\"19\" | from_radix(2) == 11) instead of an error")
+	c14RadixDigitGuard(ru, from2)
 }
 
 // ---------------------------------------------------------------------------
@@ -637,8 +639,38 @@ func c14JQErr(cx *c14Ctx) {
 				}
 			}
 		}
+		// variables bound from the decode error (`._error as $e`, `_decode_value_error as $e`)
+		errVars := map[string]bool{}
 		fw.WalkJQ(d.Def.Body, func(n any) bool {
-			if ifn, ok := n.(*gojq.If); ok && strings.Contains(fw.JQStr(ifn.Cond), "_error") && c14HasCall(ifn.Then, "error") {
+			t, ok := n.(*gojq.Term)
+			if !ok {
+				return true
+			}
+			for _, sfx := range t.SuffixList {
+				if sfx.Bind == nil {
+					continue
+				}
+				src := t.String()
+				if i := strings.Index(src, " as $"); i >= 0 {
+					src = src[:i]
+				}
+				if strings.Contains(src, "_error") {
+					for _, pt := range sfx.Bind.Patterns {
+						if pt.Name != "" {
+							errVars[pt.Name] = true
+						}
+					}
+				}
+			}
+			return true
+		}, false)
+		fw.WalkJQ(d.Def.Body, func(n any) bool {
+			ifn, ok := n.(*gojq.If)
+			if !ok || !c14HasCall(ifn.Then, "error") {
+				return true
+			}
+			cond := fw.JQStr(ifn.Cond)
+			if strings.Contains(cond, "_error") || errVars[cond] {
 				good = true
 			}
 			return true
